@@ -27,7 +27,7 @@ pub struct Case {
 fn n_cases(tier: Tier) -> u64 {
     match tier {
         Tier::Quick => 700,
-        Tier::Thorough => 14_000,
+        Tier::Thorough => 30_000,
     }
 }
 
@@ -78,6 +78,10 @@ pub fn make_case(seed: u64, _tier: Tier, idx: u64) -> Case {
                         let (c, f) = gen::nested_cfg(&mut rng);
                         (Source::Nested, c, f)
                     }
+                    8 if rng.chance(0.12) => {
+                        let (c, f) = gen::big_cfg(&mut rng, 200);
+                        (Source::Big, c, f)
+                    }
                     _ => gen::grammar_for_case(&mut rng, u64::MAX),
                 };
                 let score = match lr::build_reference(&cfg, 3000) {
@@ -95,6 +99,9 @@ pub fn make_case(seed: u64, _tier: Tier, idx: u64) -> Case {
                         sc += r.ctx.first.nullable.iter().filter(|x| **x).count().min(3) as i64;
                         if an.productive[cfg.start] {
                             sc += 3;
+                        }
+                        if source == Source::Big {
+                            sc += 6;
                         }
                         sc + rng.below(9) as i64
                     }
